@@ -1,1 +1,126 @@
-From TL Require Import Base.Base.
+(* C13 - Numeric functions follow the integer/float tower.                *)
+(* Statements only; the proofs are in Proofs/Numeric.v.                    *)
+From TL Require Import Base.Base Model.Reader Model.Printer Model.Store Model.Eval Model.Init.
+From TL Require Import Proofs.Numeric.
+Local Open Scope Z_scope.
+
+Section C13.
+Variable F : fops.     (* binary64 operations: an oracle (hardware doubles on both sides) *)
+
+(* integer operands: the mathematically exact result, or an error when it *)
+(* does not fit an i64                                                     *)
+Theorem C13_add_exact : forall a b, binop F OAdd (Int a) (Int b) =
+  if in_i64 (a + b) then Ok (Int (a + b)) else Err ERange.
+Proof. exact (add_int F). Qed.
+Theorem C13_sub_exact : forall a b, binop F OSub (Int a) (Int b) =
+  if in_i64 (a - b) then Ok (Int (a - b)) else Err ERange.
+Proof. exact (sub_int F). Qed.
+Theorem C13_mul_exact : forall a b, binop F OMul (Int a) (Int b) =
+  if in_i64 (a * b) then Ok (Int (a * b)) else Err ERange.
+Proof. exact (mul_int F). Qed.
+
+(* integer division truncates toward zero (Z.quot), a zero divisor is an error *)
+Theorem C13_div_truncates : forall a b, b <> 0 -> binop F ODiv (Int a) (Int b) =
+  if in_i64 (Z.quot a b) then Ok (Int (Z.quot a b)) else Err ERange.
+Proof. exact (div_int F). Qed.
+Theorem C13_div_only_min_overflows : forall a b,
+  in_range a -> in_range b -> b <> 0 -> ~ (a = i64_min /\ b = -1) -> in_range (Z.quot a b).
+Proof. exact quot_in_range. Qed.
+Theorem C13_div_zero : forall a, binop F ODiv (Int a) (Int 0) = Err ERange.
+Proof. exact (div_int_zero F). Qed.
+
+(* mod takes the sign of the divisor: it is Z.modulo (floored), never the *)
+(* truncated remainder                                                     *)
+Theorem C13_mod_sign_of_divisor : forall a b, b <> 0 ->
+  binop F OMod (Int a) (Int b) = Ok (Int (Z.modulo a b)).
+Proof. exact (mod_int F). Qed.
+Theorem C13_mod_zero : forall a, binop F OMod (Int a) (Int 0) = Err ERange.
+Proof. exact (mod_int_zero F). Qed.
+
+(* integer operands give integer results (in range), any float operand    *)
+(* makes the result a float                                                *)
+Theorem C13_int_closed : forall op a b r, in_range b ->
+  binop F op (Int a) (Int b) = Ok r -> exists z, r = Int z /\ in_range z.
+Proof. exact (int_closed F). Qed.
+Theorem C13_contagion : forall op a b r, is_num a -> is_num b -> (is_flt a \/ is_flt b) ->
+  binop F op a b = Ok r -> is_flt r.
+Proof. exact (contagion F). Qed.
+
+(* arguments that are not numbers are rejected, in either position *)
+Theorem C13_rejects_non_numbers : forall op a b, ~ is_num a \/ ~ is_num b ->
+  match binop F op a b with Ok _ => False | _ => True end.
+Proof. exact (non_number_rejected F). Qed.
+
+(* the n-ary operators are left folds of the binary operation: the call   *)
+(* (+ x1 ... xn) of the interpreter, on numeric literals                   *)
+Lemma run_lit f x s : numlit x = true -> run F (S f) (TEval x) s = (Ok x, s).
+Proof. destruct x; try discriminate; reflexivity. Qed.
+
+Theorem C13_nary_is_left_fold : forall f a l s, forallb numlit (a :: l) = true ->
+  run F (S (S f)) (TCall true (Prim PAdd) (of_list (a :: l) Nil)) s
+    = (fold_op (binop F OAdd) a l, s) /\
+  run F (S (S f)) (TCall true (Prim PMul) (of_list (a :: l) Nil)) s
+    = (fold_op (binop F OMul) a l, s) /\
+  run F (S (S f)) (TCall true (Prim PMax) (of_list (a :: l) Nil)) s
+    = (fold_op (maxmin F true) a l, s) /\
+  run F (S (S f)) (TCall true (Prim PMin) (of_list (a :: l) Nil)) s
+    = (fold_op (maxmin F false) a l, s).
+Proof.
+  intros f a l s H.
+  repeat split; apply (reduce_with_lits (run F (S f)) (run_lit f)); assumption.
+Qed.
+
+(* a single argument is type-checked too: (+ "a") is an error *)
+Theorem C13_single_argument_checked : forall f x s, numberp x = false ->
+  self_evaluating x = true ->
+  fst (run F (S (S f)) (TCall true (Prim PAdd) (Cons x Nil)) s) = Err EType.
+Proof.
+  intros f x s Hn Hs. destruct x; try discriminate; reflexivity.
+Qed.
+
+(* max / min: equal to an argument, and a bound of all arguments *)
+Theorem C13_max_spec : forall l a, exists m,
+  fold_op (maxmin F true) (Int a) (map Int l) = Ok (Int m) /\
+  In m (a :: l) /\ Forall (fun x => x <= m) (a :: l).
+Proof. exact (fold_max_int F). Qed.
+Theorem C13_min_spec : forall l a, exists m,
+  fold_op (maxmin F false) (Int a) (map Int l) = Ok (Int m) /\
+  In m (a :: l) /\ Forall (fun x => m <= x) (a :: l).
+Proof. exact (fold_min_int F). Qed.
+
+(* a comparison chain holds exactly when every adjacent pair does *)
+Theorem C13_chain_iff_adjacent : forall f c p l s, forallb numlit (p :: l) = true ->
+  exists b, adjacent F c (p :: l) = Ok b /\
+  compare_chain F (run F (S f)) c l (Some p) true s = (Ok (of_bool b), s).
+Proof.
+  intros f c p l s H.
+  destruct (compare_chain_lits F (run F (S f)) (run_lit f) c l p true s H) as (b & E1 & E2).
+  exists b. split; [exact E1|exact E2].
+Qed.
+
+End C13.
+Print Assumptions C13_add_exact. Print Assumptions C13_sub_exact. Print Assumptions C13_mul_exact.
+Print Assumptions C13_div_truncates. Print Assumptions C13_div_only_min_overflows.
+Print Assumptions C13_div_zero. Print Assumptions C13_mod_sign_of_divisor.
+Print Assumptions C13_mod_zero. Print Assumptions C13_int_closed. Print Assumptions C13_contagion.
+Print Assumptions C13_rejects_non_numbers. Print Assumptions C13_nary_is_left_fold.
+Print Assumptions C13_single_argument_checked. Print Assumptions C13_max_spec.
+Print Assumptions C13_min_spec. Print Assumptions C13_chain_iff_adjacent.
+
+(* non-vacuity *)
+Definition F0 : fops :=
+  {| f_add := fun _ _ => 0; f_sub := fun _ _ => 0; f_mul := fun _ _ => 0;
+     f_div := fun _ _ => 0; f_rem := fun _ _ => 0; f_pow := fun _ _ => 0;
+     f_max := fun _ _ => 0; f_min := fun _ _ => 0; f_of_int := fun z => z;
+     f_to_int := fun z => z; f_round := fun z => z; f_trunc := fun z => z;
+     f_lt := Z.ltb; f_le := Z.leb; f_eq := Z.eqb; f_is_finite := fun _ => true;
+     f_to_dec := fun _ => []; f_of_dec := fun _ => None |}.
+Definition ev0 (p : string) := fst (eval_string F0 40 (s2t p) (init_state [] None)).
+Example C13_ex1 : ev0 "(list (mod -7 2) (mod 7 -2) (/ -7 2) (+ 1 2 3) (< 1 2 3) (< 1 3 2) (max 3 9 4))"
+  = Ok (of_list [Int 1; Int (-1); Int (-3); Int 6; T; Nil; Int 9] Nil).
+Proof. vm_compute. reflexivity. Qed.
+Example C13_ex2 : ev0 "(+ 9223372036854775807 1)" = Err ERange.
+Proof. vm_compute. reflexivity. Qed.
+
+Check C13_mod_sign_of_divisor : forall F a b, b <> 0 ->
+  binop F OMod (Int a) (Int b) = Ok (Int (Z.modulo a b)).
